@@ -571,7 +571,8 @@ def check_common_values(ctx):
     for ty, key in ((C + "dup::Dup<T>", "Dup"), ("push::instruction::exec::dup_block::DupBlock", "DupBlock")):
         f = ctx.trait_fn(I, ty)
         ps = return_paths(ctx.paths(f))
-        ok = len(ps) == 1 and match(ps[0].ret, Call("PushOnto::push_onto", Call(("Result::cloned", "Result::copied"), Call("Stack::top", stack_of, nargs=1), nargs=1), Param(2), nargs=2))
+        ok = len(ps) == 1 and match(ps[0].ret, Call("PushOnto::push_onto", Through(Call(("Result::cloned", "Result::copied"), Through(Call("Stack::top", stack_of, nargs=1), calls=("Result::inspect", "Result::inspect_err")), nargs=1),
+                                                                                  calls=("Result::inspect", "Result::inspect_err", "Result::map_err")), Param(2), nargs=2))
         ctx.check(ok, "R01.3", key + "/pushes-a-clone-of-the-top", short(ps[0].ret, 5) if ps else "-", f.at())
     f = ctx.trait_fn(I, C + "swap::Swap<T>")
     okp = [p for p in return_paths(ctx.paths(f)) if not is_err_return(p)]
